@@ -347,9 +347,12 @@ func (f *Font) New() (font.Layouter, error) {
 
 	// Initialize encoding state - Type3 fonts are always simple fonts
 	notdefWidth := math.Round(ww[0] * 1000)
+	// A Type 3 font dictionary has no BaseFont: readers derive text from glyph
+	// names with the ordinary glyph list only, so no font-specific list (as
+	// for a font called "ZapfDingbats") may be assumed to imply a text.
 	simple := simpleenc.NewSimple(
 		notdefWidth,
-		f.PostScriptName,
+		"",
 		&pdfenc.WinAnsi,
 	)
 
